@@ -55,7 +55,7 @@ def strategy():
             environ = None if envkind == "null" else "keep"
         ncalls = draw(st.sampled_from([1, 1, 2, 3]))
         calls = [draw(call(i == ncalls - 1)) for i in range(ncalls)]
-        return {"cfg": cfg, "environ": environ, "calls": calls}
+        return {"cfg": cfg, "environ": environ, "calls": calls, "pre_errno": draw(st.sampled_from([0, 0, 0, 34, 4, 11]))}
     return case()
 
 
@@ -65,6 +65,7 @@ def scenario(o, c):
     ops += gen.cfg_ops(c["cfg"], o)
     if c["environ"] != "keep":
         ops.append(drv.op_env(drv.vec_list(c["environ"])) if c["environ"] is not None else drv.op_env(None))
+    ops.append(drv.op("e", c.get("pre_errno", 0)))
     for k in c["calls"]:
         ops.append(drv.op_exec(k["kind"], k["path"], k["argv"], k["envp"], ret=k["ret"], err=k["err"], real=k["real"]))
         ops += [drv.op("L"), drv.op("G")]
